@@ -517,9 +517,9 @@ func (g *Gen) WF(t types.Type, s string) string {
 	}
 	switch g.SortOf(t) {
 	case "Str":
-		return "(str.wf " + s + ")"
+		return "(gs.wf " + s + ")"
 	case "Slice":
-		return fmt.Sprintf("(and (<= 0 (slen %s)) (<= (slen %s) (scap %s)) (<= (scap %s) MaxInt) (<= 0 (soff %s)) (>= (sref %s) 0) (=> (= (sref %s) 0) (= (scap %s) 0)))", s, s, s, s, s, s, s, s)
+		return fmt.Sprintf("(and (<= 0 (slen %s)) (<= (slen %s) (scap %s)) (<= (scap %s) MaxAlloc) (<= 0 (soff %s)) (>= (sref %s) 0) (=> (= (sref %s) 0) (= (scap %s) 0)))", s, s, s, s, s, s, s, s)
 	case "Val":
 		return "(val.wf " + s + ")"
 	case "Iface":
